@@ -8,6 +8,7 @@ import (
 	stdlog "log"
 	"net"
 	"net/http"
+	"os"
 	"sort"
 	"strings"
 	"time"
@@ -121,4 +122,12 @@ func short(s string) string {
 		return s[:60] + "..." + s[len(s)-40:] + fmt.Sprintf("(%d bytes)", len(s))
 	}
 	return strings.ToValidUTF8(s, "?")
+}
+
+var debugOn = os.Getenv("C11_DEBUG") != ""
+
+func debugf(format string, args ...interface{}) {
+	if debugOn {
+		fmt.Fprintf(os.Stderr, "c11: "+format+"\n", args...)
+	}
 }
